@@ -86,6 +86,9 @@ type Runner struct {
 	owner      uint64
 	OpenOpts   []lfs.Option
 	Rec        *lfs.Rec
+	Store      *litefs.Store // the store the history runs on
+	ExitsFn    func() []int
+	External   bool // the store is owned by the caller (no reopen)
 }
 
 func New(c *common.Ctx, r *common.Rand, cfg Config) (*Runner, error) {
@@ -100,9 +103,25 @@ func New(c *common.Ctx, r *common.Rand, cfg Config) (*Runner, error) {
 	return h, nil
 }
 
+// NewOn runs histories on a store owned by the caller (e.g. the primary of a cluster);
+// ref/refPos/walMode describe the database as it stands.
+func NewOn(c *common.Ctx, r *common.Rand, cfg Config, store *litefs.Store, exits func() []int, name string, ref *lfs.Image, refPos uint64, walMode bool) *Runner {
+	h := &Runner{C: c, R: r, Cfg: cfg, Dir: store.Path(), Name: name, Ref: ref, RefPos: refPos, WALMode: walMode, owner: 100 + r.U64()%1000,
+		Store: store, ExitsFn: exits, External: true}
+	if h.Ref == nil {
+		h.Ref = &lfs.Image{PageSize: cfg.PageSize}
+	}
+	h.DB = store.DB(name)
+	h.owner++
+	h.newPager()
+	return h
+}
+
 func (h *Runner) open() error {
 	n, err := lfs.Open(h.Dir, true, h.OpenOpts...)
 	h.Node = n
+	h.Store = n.Store
+	h.ExitsFn = n.Exits
 	if err != nil {
 		return err
 	}
@@ -121,6 +140,9 @@ func (h *Runner) newPager() {
 }
 
 func (h *Runner) Close() {
+	if h.External {
+		return
+	}
 	if h.Node != nil {
 		h.Node.Close()
 	}
@@ -134,7 +156,7 @@ func (h *Runner) ensureDB() error {
 		return nil
 	}
 	if h.DB == nil || true {
-		db, f, err := h.Node.Store.CreateDB(h.Name)
+		db, f, err := h.Store.CreateDB(h.Name)
 		if err != nil {
 			return fmt.Errorf("CreateDB: %w", err)
 		}
@@ -171,6 +193,8 @@ func (h *Runner) targetSize(cur uint32) uint32 {
 	return cur + uint32(r.Intn(3))
 }
 
+func (h *Runner) GenStep() Step { return h.genStep() }
+
 func (h *Runner) genStep() Step {
 	r := h.R
 	cur := uint32(len(h.Ref.Pages))
@@ -180,7 +204,7 @@ func (h *Runner) genStep() Step {
 	}
 	x := r.Intn(100)
 	switch {
-	case x < 6:
+	case x < 6 && !h.External:
 		return Step{Op: "reopen"}
 	case x < 9 && h.Cfg.AllowDrop:
 		return Step{Op: "drop"}
@@ -305,7 +329,7 @@ func (h *Runner) Exec(st Step) Obs {
 	ps := h.Cfg.PageSize
 	ob := Obs{Step: len(h.Steps), Op: st.Op}
 	h.Steps = append(h.Steps, st)
-	exitsBefore := len(h.Node.Exits())
+	exitsBefore := len(h.ExitsFn())
 	if h.Rec == nil {
 		h.Rec = &lfs.Rec{}
 	}
@@ -434,7 +458,7 @@ func (h *Runner) Exec(st Step) Obs {
 	if err != nil {
 		ob.Err = err.Error()
 	}
-	if ex := h.Node.Exits(); len(ex) > exitsBefore {
+	if ex := h.ExitsFn(); len(ex) > exitsBefore {
 		ob.Exits = ex[exitsBefore:]
 	}
 	ob.Ops = append([]string(nil), h.Rec.Ops...)
@@ -532,9 +556,9 @@ func (h *Runner) retention(st Step) error {
 		_ = os.Chtimes(filepath.Join(h.DBDir(), "ltx", f.Name), mt, mt)
 	}
 	if st.Backup {
-		h.Node.Store.BackupClient = litefs.NewFileBackupClient(filepath.Join(h.Dir, "backup-unused"))
+		h.Store.BackupClient = litefs.NewFileBackupClient(filepath.Join(h.Dir, "backup-unused"))
 	} else {
-		h.Node.Store.BackupClient = nil
+		h.Store.BackupClient = nil
 	}
 	h.DB.SetHWM(ltx.TXID(st.HWM))
 	ages := "["
@@ -550,15 +574,15 @@ func (h *Runner) retention(st Step) error {
 	}
 	h.Rec.Ops = append(h.Rec.Ops, fmt.Sprintf("ORetention %s] %v %d", ages, st.Backup, st.HWM))
 	err := h.DB.EnforceRetention(context.Background(), t0)
-	h.Node.Store.BackupClient = nil
+	h.Store.BackupClient = nil
 	return err
 }
 
 func (h *Runner) observe(ob *Obs) {
-	if h.Node == nil || h.Node.Store == nil {
+	if h.Store == nil {
 		return
 	}
-	if db := h.Node.Store.DB(h.Name); db != nil {
+	if db := h.Store.DB(h.Name); db != nil {
 		pos := db.Pos()
 		ob.TXID, ob.Chk, ob.PageN, ob.Mode = uint64(pos.TXID), uint64(pos.PostApplyChecksum), db.PageN(), int(db.Mode())
 		pages, blocks := db.VerifChecksumCache()
